@@ -188,23 +188,25 @@ example : invRing 128 [3, 0] = some [0xaaaaaaaaaaaaaaab, 0xaaaaaaaaaaaaaaaa] := 
 /-! ## Tie of the `Uint` multiplication methods to the source (G)
 
 `Ruint.Gen.uint_overflowing_mul`, `uint_wrapping_mul`, `uint_checked_mul`, `uint_saturating_mul` are regenerated from
-`src/mul.rs` on every run: `Self::ZERO`, the call of `algorithms::addmul` / `addmul_n` on `&mut result.limbs` (the callee
-is the C15 model function — `addmul` re-borrows sub-slices and is not translated; C15 ties it by correspondence and its
-`*_nx1` kernels by regenerated functions), the `BITS > 0` guard, the flag `|= limbs[LIMBS-1] > MASK`, `apply_mask()`, the
+`src/mul.rs` on every run: `Self::ZERO`, the call of `algorithms::addmul` on `&mut result.limbs` (the callee is
+`Ruint.Gen.addmul`, itself regenerated from `algorithms/mul.rs` and proved equal to the C15 model; `addmul_n` — unrolled macro
+bodies — is the C15 model function), the `BITS > 0` guard, the flag `|= limbs[LIMBS-1] > MASK`, `apply_mask()`, the
 `match` of the checked / saturating forms. They equal the models of the theorems above; the driver runs them. -/
 
-theorem gen_overflowing_mul_eq (bits : ℕ) (hN : nlimbs bits < 2 ^ 64) (a b : List ℕ) :
-    Ruint.Gen.uint_overflowing_mul bits (nlimbs bits) a b = overflowingMul bits a b :=
-  Ruint.GenMulWrap.overflowing_mul_eq bits hN a b
+theorem gen_overflowing_mul_eq (bits : ℕ) (hN : nlimbs bits < 2 ^ 62) (a b : List ℕ) (ha : Canon bits a) (hb : Canon bits b) :
+    Ruint.Gen.uint_overflowing_mul (3 * nlimbs bits + 1) bits (nlimbs bits) a b = overflowingMul bits a b :=
+  Ruint.GenMulWrap.overflowing_mul_eq bits hN a b ha.1 hb.1 ha.2.1 hb.2.1
 
 theorem gen_wrapping_mul_eq (bits : ℕ) (hN : nlimbs bits < 2 ^ 64) (a b : List ℕ) (ha : Canon bits a) (hb : Canon bits b) :
     Ruint.Gen.uint_wrapping_mul bits (nlimbs bits) a b = wrappingMul bits a b :=
   Ruint.GenMulWrap.wrapping_mul_eq bits hN a b ha.1 hb.1
 
-theorem gen_checked_saturating_mul_eq (bits : ℕ) (hN : nlimbs bits < 2 ^ 64) (a b : List ℕ) :
-    Ruint.Gen.uint_checked_mul bits (nlimbs bits) a b = checkedMul bits a b
-    ∧ Ruint.Gen.uint_saturating_mul bits (nlimbs bits) a b = saturatingMul bits a b :=
-  ⟨Ruint.GenMulWrap.checked_mul_eq bits hN a b, Ruint.GenMulWrap.saturating_mul_eq bits hN a b⟩
+theorem gen_checked_saturating_mul_eq (bits : ℕ) (hN : nlimbs bits < 2 ^ 62) (a b : List ℕ) (ha : Canon bits a)
+    (hb : Canon bits b) :
+    Ruint.Gen.uint_checked_mul (3 * nlimbs bits + 1) bits (nlimbs bits) a b = checkedMul bits a b
+    ∧ Ruint.Gen.uint_saturating_mul (3 * nlimbs bits + 1) bits (nlimbs bits) a b = saturatingMul bits a b :=
+  ⟨Ruint.GenMulWrap.checked_mul_eq bits hN a b ha.1 hb.1 ha.2.1 hb.2.1,
+   Ruint.GenMulWrap.saturating_mul_eq bits hN a b ha.1 hb.1 ha.2.1 hb.2.1⟩
 
 /-- **`Uint::inv_ring` as generated from the source** (guard, the `Wrapping<u64>` seed block with its four Newton steps, the
     doubling loop `result *= Self::from(2) - self * result` — the `Uint` operators read as `wrapping_mul` / `wrapping_sub` —,
